@@ -31,7 +31,7 @@ type Fs struct {
 	Crash func()
 	// Dead reports whether the process is dead: its disk operations then fail
 	// without any effect.
-	Dead func() bool
+	Dead  func() bool
 	Fired map[string]int
 	Ops   int
 }
